@@ -264,20 +264,33 @@ def identifiers_on_the_command_line(chk, tier):
     characters included"""
     import implrun
 
-    root = implrun.make_project({"COND": 'run_command(name="ok", run="true")\n', "p/COND": 'run_command(name="t", run="true")\n'})
+    import os
+
+    root = implrun.make_project({"COND": 'run_experiment(name="ok", run="echo 1 > $COND_OUT/r")\n', "p/COND": 'run_experiment(name="t", run="echo 2 > $COND_OUT/r")\n'})
+    for t in ("//:ok", "//p:t"):      # recorded versions, so that `cond archive <valid identifier>` has something to archive
+        r0 = implrun.run_cond(["run", t], root, timeout=60)
+        if r0.code != 0:
+            chk.violation("correspondence", "harness: identifiers_on_the_command_line: `cond run %s` failed: %s" % (t, implrun.strip_ansi(r0.out + r0.err)[-300:]), {"theorem_or_tie": "scenario set-up"}, found_input=False)
+            return
     pads = ["\n", " ", "\t", "\r", "\x0b", "\x0c", "\x1c", "\x85", "\xa0", "\u2003"]
     cands = ["//:ok", ":ok", "//p:t", "p:t"]
     cands += ["//:ok" + c for c in pads[: (4 if tier == "quick" else len(pads))]] + [c + "//:ok" for c in pads[: (3 if tier == "quick" else len(pads))]]
-    cands += ["//p:t" + pads[0], " p:t", "//p:t ", "//:ok\n\n", "//:o k", "//:", "ok", "//p/:t", "//p//:t"]
-    for s in cands:
+    cands += ["//p:t" + pads[0], " p:t", "//p:t ", "//:ok\n\n", "//:o k", "//:", "ok", "//p/:t", "//p//:t", "", " ", "//", ":"]
+    for k, s in enumerate(cands):
         want = doc_ident(s, False) is not None
-        for argv in (["run", "--check", s], ["where", "-f", s]):
+        arch = "arch-%d.tar.gz" % k
+        for argv in (["run", "--check", s], ["where", "-f", s], ["archive", s, "-o", arch]):
             r = implrun.run_cond(argv, root, timeout=60)
             chk.coverage["evaluations"] += 1
             chk.count("cli-identifiers", "valid" if want else "invalid")
             accepted = r.code == 0
-            if accepted != bool(want):
-                chk.violation("impl-violation", "`cond %s %r` was %s, the documented identifier grammar %s the string" % (" ".join(argv[:-1]), s, "accepted" if accepted else "rejected", "accepts" if want else "rejects"),
+            made = os.path.exists(os.path.join(root, arch))
+            if made:
+                os.unlink(os.path.join(root, arch))
+            if accepted != bool(want) or (made and not want):
+                chk.violation("impl-violation", "`cond %s` with the string %r in the identifier position was %s%s, the documented identifier grammar %s the string"
+                              % (argv[0] + (" --check" if argv[0] == "run" else " -f" if argv[0] == "where" else ""), s, "accepted" if accepted else "rejected",
+                                 " and an archive was written" if made else "", "accepts" if want else "rejects"),
                               {"input": {"part": "cli-identifiers", "string": s, "argv": argv}, "impl_observation": {"exit": r.code, "stderr": implrun.strip_ansi(r.err)[-300:]}, "oracle_verdict": bool(want)},
                               match_key={"cli-identifier": argv[0]}, size=len(s))
 
